@@ -20,6 +20,7 @@ func init() {
 		Assumptions: []string{"generated getters GetX() return field X"},
 		Run:         runC14,
 		Controls: []Control{
+			{Name: "positions-read-options-forwarded-to-the-items", File: "pkg/trait/openclosepb/model.go", Old: "\t\tfor change := range m.positions.Pull(ctx) {\n", New: "\t\tfor change := range m.positions.Pull(ctx, ops...) {\n", Expect: "R14.18"},
 			{Name: "positions-forwarder-stops-on-unchanged", File: "pkg/trait/openclosepb/model.go", Old: "\t\t\tif eq(last, positions) {\n\t\t\t\tcontinue\n\t\t\t}\n", New: "\t\t\tif eq(last, positions) {\n\t\t\t\treturn\n\t\t\t}\n", Expect: "R14.17"},
 			{Name: "aggregate-pull-forwards-updates-only", File: "pkg/trait/openclosepb/model.go", Old: "\t\tfor change := range m.positions.Pull(ctx) {", New: "\t\tfor change := range m.positions.Pull(ctx, resource.WithUpdatesOnly(readRequest.UpdatesOnly)) {", Expect: "R14.12"},
 			{Name: "revert-F37-mask-on-items", File: "pkg/trait/openclosepb/model.go", Old: "\tallPositions := m.positions.List() // already sorted by ID aka Direction ordinal", New: "\tallPositions := m.positions.List(opts...) // already sorted by ID aka Direction ordinal", Expect: "R14.11"},
@@ -199,6 +200,12 @@ func fieldDecidesBranch(c *an.Ctx, fn *ssa.Function, req ssa.Value, name string,
 
 func runC14(c *an.Ctx) {
 	r1417(c, "R14.17")
+	r1418(c, "R14.18")
+	c.Min("R14.18", 2)
+	r061as(c, "R14.19") // the projection used by every Get and Pull never writes the stored message (shared with R06.1)
+	c.Min("R14.19", 3)
+	r167(c, "R14.20") // list fields are compared element by element, the first one included (shared with R16.7)
+	c.Min("R14.20", 1)
 	c.Min("R14.17", 10)
 	r046(c, "R14.15")
 	r165held(c, "R14.15") // open streams under an equivalence: every delivery moves the reference (shared with R16.5)
@@ -1205,4 +1212,78 @@ func r1417(c *an.Ctx, rule string) {
 		}
 	}
 	c.Count("model_forwarders", n)
+}
+
+// r1418: read options are applied once, at the level they were written for. A model function that interprets its read
+// options itself (resource.ComputeReadConfig(opts...): it assembles an aggregate message from several items and projects
+// THAT with the request's mask) does not also hand the same options to the item resource underneath: the mask names
+// fields of the aggregate, which the items do not have, so every item is projected to nothing (and updates-only would
+// suppress the items' seed the aggregate is built from).
+func r1418(c *an.Ctx, rule string) {
+	n := 0
+	crc := an.ModulePath + "/pkg/resource.ComputeReadConfig"
+	for _, fn := range c.Prog.FuncsIn("pkg/trait") {
+		if c.Prog.IsGenerated(fn.Pos()) || fn.Parent() != nil || !fn.Signature.Variadic() || len(fn.Params) == 0 {
+			continue
+		}
+		vp := fn.Params[len(fn.Params)-1]
+		interprets := false
+		for _, call := range an.CallsTo(fn, crc) {
+			for _, a := range call.Common().Args {
+				for _, v := range localValues(a, 0) {
+					if v == ssa.Value(vp) {
+						interprets = true
+					}
+				}
+			}
+		}
+		if !interprets {
+			continue
+		}
+		n++
+		c.SawFunc(an.FuncName(fn))
+		var fwd ssa.Instruction
+		for _, f := range an.WithClosures(fn) {
+			an.Instrs(f, func(in ssa.Instruction) {
+				call, ok := in.(ssa.CallInstruction)
+				if !ok || an.CalleeName(call) == crc {
+					return
+				}
+				if !strings.Contains(an.CalleeName(call), "/pkg/resource.") {
+					return
+				}
+				for _, a := range call.Common().Args {
+					for _, v := range localValues(a, 0) {
+						if v == ssa.Value(vp) {
+							fwd = in
+						}
+						if fv, isFV := v.(*ssa.FreeVar); isFV {
+							if b := an.FreeVarBinding(fv); b == ssa.Value(vp) {
+								fwd = in
+							}
+						}
+						// a captured variable: the cell the closure shares with the function, holding the parameter
+						if u, isU := v.(*ssa.UnOp); isU {
+							if fv, isFV := u.X.(*ssa.FreeVar); isFV {
+								if cell := an.CellOf(fv); cell != nil {
+									for _, st := range an.StoresTo(cell) {
+										if st.Val == ssa.Value(vp) {
+											fwd = in
+										}
+									}
+								}
+							}
+						}
+					}
+				}
+			})
+		}
+		pos := fn.Pos()
+		if fwd != nil {
+			pos = fwd.Pos()
+		}
+		c.Check(fwd == nil, rule, an.FuncName(fn)+"|read options are applied once, to the aggregate", pos, "interprets its options itself and does not forward them",
+			"the function computes its own read configuration from its options AND passes the same options to the resource underneath: the read mask is written against the aggregate message, the items it is applied to do not have those fields and are projected to nothing")
+	}
+	c.Count("functions_interpreting_read_options", n)
 }
